@@ -26,8 +26,15 @@ type hMod struct {
 func hC14Build(n1, n2 string) *hMod {
 	m := NewModule()
 	g0 := m.NewGlobalDef(n1, constant.NewInt(types.I32, 1))
-	m.NewGlobalDef("", constant.NewInt(types.I32, 2))
+	gu := m.NewGlobalDef("", constant.NewInt(types.I32, 2))
 	f := m.NewFunc(n2, types.I32, NewParam("", types.I32))
+	// constant expressions that mention a named global, the unnamed global and
+	// the function (whatever text they cache must follow a later renaming or
+	// renumbering)
+	zero32 := constant.NewInt(types.I32, 0)
+	m.NewGlobalDef("cg", constant.NewGetElementPtr(types.I32, g0, zero32))
+	m.NewGlobalDef("cu", constant.NewBitCast(gu, types.I8Ptr))
+	m.NewGlobalDef("cf", constant.NewPtrToInt(f, types.I64))
 	b := f.NewBlock("")
 	i1 := b.NewAdd(f.Params[0], constant.NewInt(types.I32, 1))
 	named := b.NewAdd(i1, i1)
@@ -37,11 +44,13 @@ func hC14Build(n1, n2 string) *hMod {
 	al.SetName("slot")
 	lg := b.NewLoad(types.I32, g0) // a use of the global (its type is printed)
 	lg.SetName("lg")
+	le := b.NewLoad(types.I32, constant.NewGetElementPtr(types.I32, g0, zero32)) // a constant expression as operand
+	le.SetName("le")
 	b.NewRet(i2)
 	return &hMod{m: m, f: f, b: b, i1: i1, i2: i2, named: named, al: al}
 }
 
-const hC14Edits = 16
+const hC14Edits = 18
 
 // hC14Edit applies edit k.  Edits 0-5 keep the numbers of already numbered
 // values; 6-9 shift them.
@@ -117,6 +126,10 @@ func hC14Edit(h *hMod, k int, nm string) {
 		ld := NewLoad(types.I32, h.al)
 		ld.SetName(nm)
 		h.b.Insts = append(h.b.Insts, ld)
+	case 16: // rename a global that constant expressions mention
+		h.m.Globals[0].SetName(nm + "g")
+	case 17: // rename the function that a constant expression mentions
+		h.f.SetName(nm + "f")
 	case 9: // insert an unnamed global before the unnamed one
 		g := NewGlobalDef("", constant.NewInt(types.I32, 9))
 		h.m.Globals = append([]*Global{g}, h.m.Globals...)
@@ -156,12 +169,20 @@ func hC14Observe(h *hMod, how int) {
 				if v, ok := inst.(value.Named); ok {
 					_, _, _, _ = v.Ident(), v.String(), v.Type(), v.Name()
 				}
-				_, _ = inst.LLString(), inst.Operands()
+				_ = inst.LLString()
+				for _, op := range inst.Operands() {
+					if *op != nil {
+						_, _, _ = (*op).Ident(), (*op).String(), (*op).Type()
+					}
+				}
 			}
 			_, _, _ = blk.Term.LLString(), blk.Term.Succs(), blk.Term.Operands()
 		}
 		for _, g := range h.m.Globals {
 			_, _, _, _ = g.Ident(), g.String(), g.Type(), g.LLString()
+			if g.Init != nil {
+				_, _, _ = g.Init.Ident(), g.Init.String(), g.Init.Type()
+			}
 		}
 	}
 }
